@@ -53,8 +53,8 @@ class Case:
 
     def coq(self, variant):
         ps = "[" + "; ".join("(%s, %s, %s)" % (cq(bd), cql(cv), cql(cd)) for (bd, cv, cd) in self.pieces) + "]"
-        return "Eval vm_compute in run %s %s %s %s %d %s %s %d %s %d %s %s." % (
-            variant, ps, cql(self.dv), cql(self.dd), self.k, cq(self.e1), cq(self.e2), self.n, cq(self.x0), self.im,
+        return "(%s, %s, %s, %d%%nat, %s, %s, %d%%nat, %s, %d%%nat, %s, %s)" % (
+            ps, cql(self.dv), cql(self.dd), self.k, cq(self.e1), cq(self.e2), self.n, cq(self.x0), self.im,
             cq(self.a), cq(self.b))
 
     def json(self):
@@ -214,21 +214,38 @@ def spec_check(case, obs):
     return bad
 
 
+def parse_term(txt):
+    """Coq-printed term made of lists [a; b], tuples (a, b) and atoms -> nested Python lists / tuples / strings"""
+    toks = re.findall(r"[\[\]();,]|[^\s\[\]();,]+", txt)
+    pos = [0]
+
+    def term():
+        t = toks[pos[0]]
+        pos[0] += 1
+        if t == "[" or t == "(":
+            close = "]" if t == "[" else ")"
+            items = []
+            while toks[pos[0]] != close:
+                items.append(term())
+                if toks[pos[0]] in (";", ","):
+                    pos[0] += 1
+            pos[0] += 1
+            return items if t == "[" else tuple(items)
+        return t
+    return term()
+
+
 def parse_coq(out):
-    """results of the `Eval vm_compute in run ...` commands, in order"""
+    """results of the `Eval vm_compute in map run1 [...]` commands, concatenated"""
+    def fl(s):
+        return {"nan": NAN, "infinity": INF, "neg_infinity": -INF}[s] if s in ("nan", "infinity", "neg_infinity") else float(s)
     res = []
     for m in re.finditer(r"^\s+= (.*?)^\s+: ", out, flags=re.S | re.M):
-        txt = " ".join(m.group(1).split())
-        mm = re.match(r"\((true|false), (\S+), (-?\d+)%Z, \[(.*)\]\)$", txt)
-        if not mm:
-            res.append(None)
-            continue
-
-        def fl(s):
-            s = s.strip()
-            return {"nan": NAN, "infinity": INF, "neg_infinity": -INF}.get(s, None) if s in ("nan", "infinity", "neg_infinity") else float(s)
-        calls = [fl(u) for u in mm.group(4).split(";")] if mm.group(4).strip() else []
-        res.append((mm.group(1) == "true", fl(mm.group(2)), int(mm.group(3)), calls))
+        for t in parse_term(m.group(1)):
+            try:
+                res.append((t[0] == "true", fl(t[1]), int(t[2].replace("%Z", "")), [fl(u) for u in t[3]]))
+            except (KeyError, ValueError, IndexError, TypeError):
+                res.append(None)
     return res
 
 
@@ -249,6 +266,7 @@ def main(c):
     if rc != 0:
         c.report("run", "driver failed (rc=%d): %s" % (rc, err[-500:]), {"stderr": err[-3000:]}, False)
         return
+    c.log('driver ran %d cases' % len(cases))
     obs = parse_driver(out)
     if len(obs) != len(cases):
         c.report("run", "driver printed %d results for %d cases" % (len(obs), len(cases)), {}, False)
@@ -271,11 +289,14 @@ def main(c):
     for k0 in range(0, len(cases), chunk):
         sub = cases[k0:k0 + chunk]
         txt = ("From Coq Require Import Floats List ZArith.\nFrom C09 Require Import C09Model C09Float.\nImport ListNotations.\n"
-               "Open Scope float_scope.\nSet Warnings \"-inexact-float\".\n" + "\n".join(cs.coq(variant) for cs in sub) + "\n")
+               "Open Scope float_scope.\n" + "".join(
+                   "Eval vm_compute in map (run1 %s) [\n%s].\n" % (variant, ";\n".join(cs.coq(variant) for cs in sub[j:j + 500]))
+                   for j in range(0, len(sub), 500)))
         rc, out, err = c.coq_eval(MODEL, txt, timeout=900)
         if rc != 0:
             c.report("model-run", "model evaluation failed: " + err[-600:], {"stderr": err[-3000:]}, False)
             return
+        c.log('model evaluated on %d cases' % len(sub))
         mres = parse_coq(out)
         if len(mres) != len(sub):
             c.report("model-run", "model printed %d results for %d cases" % (len(mres), len(sub)), {"stdout": out[-2000:]}, False)
@@ -289,6 +310,7 @@ def main(c):
                 mism.append((cs, m, o))
             elif nmodel % 487 == 3:
                 c.sample({"case": cs.id, "converged": o[0], "x": hx(o[1]), "i": o[2], "evaluations": [hx(cl[0]) for cl in o[3]][:8]})
+    c.log('compared')
     c.coverage["traces_validated_against_impl"] = nmodel
     c.coverage["rule"] = ("named witnesses and textbook cases; exhaustive grid of two-region step functions over 7 value classes x 5 derivative "
                           "classes per region x bracket/no bracket (%s); %d seeded random piecewise-polynomial functions (true or arbitrary "
